@@ -425,7 +425,8 @@ def flat_items(g: G, thorough: bool) -> list:
     items.append(lambda: ("if", [(False, [g.cond()], blk(0)), (False, [g.cond()], blk(2))], blk(1)))
     items.append(lambda: ("if", [(False, [g.cond()], blk(2)), (False, [g.cond()], blk(0)), (False, [g.cond()], blk(1))], None))
 
-    def sw(ncases, grouped, default, dbody=1):
+    def sw(ncases, grouped, default, dbody=1, gdefault=0, gpos=0):
+        """gdefault: 1 = `case X: default:` share a block, 2 = `default: case X:` share a block; at case position gpos"""
         def mk():
             cases = []
             hdr = g.swhdr()
@@ -446,6 +447,10 @@ def flat_items(g: G, thorough: bool) -> list:
                     cases.append((ch(), blk(1 + (i % 2)) + [("ctrl", "break")]))
             if default:
                 cases.append((None, blk(dbody) + [("ctrl", "break")]))
+            if gdefault:
+                k = min(gpos, len(cases) - 1)
+                h, body = cases[k]
+                cases[k:k + 1] = [(h, []), (None, body)] if gdefault == 1 else [(None, []), (h, body)]
             return ("switch", hdr, cases)
         return mk
     for nc in (1, 2, 3):
@@ -455,6 +460,10 @@ def flat_items(g: G, thorough: bool) -> list:
             for default in (False, True):
                 items.append(sw(nc, grouped, default))
     items.append(sw(2, False, True, 0))
+    # default sharing a block with a case label, first / middle / last in the switch
+    for gd in (1, 2):
+        for nc, gpos in ((1, 0), (2, 0), (2, 1), (3, 1), (3, 2)):
+            items.append(sw(nc, False, False, 1, gd, gpos))
     return items
 
 
